@@ -194,6 +194,7 @@ func c13Step() {
 	}
 	endStream := vBool("frame.endStream")
 	var hfields int
+	declared, dataLen := int64(-1), int64(0)
 	var prio PriorityParam
 	hasPrio := false
 	switch kind {
@@ -226,6 +227,12 @@ func c13Step() {
 		}
 		n := vRange("frame.dataLen", 0, 1)
 		f = &DataFrame{FrameHeader: hdr(FrameData, fl, uint32(n)), data: make([]byte, n)}
+		// the request may have declared a Content-Length: shorter than, equal to or longer than what arrives
+		if st := sc.streams[1]; st != nil && st.state == stateOpen {
+			declared = int64(vRange("stream.declaredLength", -1, 2))
+			st.declBodyBytes = declared
+		}
+		dataLen = int64(n)
 	case 2:
 		f = &RSTStreamFrame{FrameHeader: hdr(FrameRSTStream, 0, 4), ErrCode: ErrCodeCancel}
 	case 3:
@@ -387,11 +394,16 @@ func c13Step() {
 				vReach("data-on-closed")
 				vAssert(isSE(ErrCodeStreamClosed), "data-on-closed-stream-is-stream-closed")
 			}
+		case declared >= 0 && dataLen > declared:
+			vReach("data-beyond-declared-length")
+			vAssert(isSE(ErrCodeProtocol), "data-beyond-declared-length-is-protocol-error")
 		default:
 			vReach("data-on-open")
 			vAssert(ek == c13None, "legal-data-accepted")
 			if endStream {
-				vAssert(sc.streams[sid].state == stateHalfClosedRemote, "end-stream-half-closes")
+				// also when fewer bytes arrived than declared: the handler gets a read error, the stream
+				// is half-closed all the same
+				vAssert(sc.streams[sid] != nil && sc.streams[sid].state == stateHalfClosedRemote, "end-stream-half-closes")
 			}
 		}
 	case 2: // RST_STREAM
